@@ -159,3 +159,54 @@ external(D + 'deep_copy_internal', types={'d': 'Tree', 'ret': 'Tree'}, ensures=[
          why_trusted='copies the dictionaries of a nested dict and keeps every other object: equal by value (recursion inside a dict '
                      'comprehension over a Tree is outside the translated subset); that the copy is a NEW object is what the '
                      'bounded frame monitor and the witnesses F-C08-update-alias / F-C07-subschema-alias check')
+
+
+# ---- deep_merge_check(check_equality=True): the RAM emitter's row merge (C12) ---------------------------------------------
+# A row that is emitted again with equal values must be accepted and must leave the stored row what it was; a row that
+# disagrees anywhere (at any depth) must be refused.  `is`-identity of the check_equality=False mode has no counterpart
+# in the value model (Tree values have no identity), so only the mode the emitter uses is under contract.
+@ghost(quantified=True)
+def compat(a: 'Tree', b: 'Tree') -> 'Bool':
+    """no key path on which a and b both hold a value and the two values differ (dicts are compared key by key)"""
+    return forall(lambda k: compat_at(a, b, k))
+
+
+@ghost(quantified=True)
+def compat_at(a: 'Tree', b: 'Tree', k: 'Atom') -> 'Bool':
+    if has(a, k) and has(b, k):
+        if is_node(child(a, k)) and is_node(child(b, k)):
+            return compat(child(a, k), child(b, k))
+        return child(a, k) == child(b, k)
+    return True
+
+
+def _compat_native(a, b):
+    for k in set(a) & set(b):
+        if isinstance(a[k], dict) and isinstance(b[k], dict):
+            if not _compat_native(a[k], b[k]):
+                return False
+        elif a[k] != b[k]:
+            return False
+    return True
+
+
+compat.__wrapped_native__ = _compat_native
+
+INST = 'assert implies(compat(entry(dct), merge_dct), compat_at(entry(dct), merge_dct, k))'
+
+contract(D + 'deep_merge_check', props=['C12'], pure=True, gen_depth=3,
+         types={'dct': 'Tree', 'merge_dct': 'Tree', 'ret': 'Tree', 'k': 'Atom', 'check_equality': 'Bool', 'path': 'Path'},
+         requires=['is_node(dct)', 'is_node(merge_dct)', 'check_equality'],
+         mutates=['dct'],
+         raises={'when': 'not compat(dct, merge_dct)'},           # refused exactly when the two rows disagree somewhere
+         ensures=['merged(dct, old(dct), merge_dct)', 'ret == dct'],
+         decreases='tree_rank(dct)',
+         # proof steps: `compat` is a universally quantified definition; to USE it (refusing a row) the solver needs the
+         # instance at the key in hand, which no term of the path mentions by itself
+         ghost={'raise ValueError(': {'before': [INST]}, 'deep_merge_check(dct[k], merge_dct[k]': {'before': [INST]}},
+         loops={0: {'invariant': [
+             'is_node(dct)',
+             'forall(lambda k: has(dct, k) == (has(entry(dct), k) or ((k in _done) and has(merge_dct, k))))',
+             'forall(lambda k: implies((k in _done), merged_at(dct, entry(dct), merge_dct, k)))',
+             'forall(lambda k: implies((k in _done), compat_at(entry(dct), merge_dct, k)))',
+             'forall(lambda k: implies(not (k in _done) and has(entry(dct), k), child(dct, k) == child(entry(dct), k)))']}})
